@@ -270,14 +270,14 @@ PROPS = {
         "level_note": "trusted: the per-key reference model (sim/engines/latchsim/model.go), the hook placement (never under a mutex); exhaustive only at the stated step granularity on one thread; mode direct-wide (one slot, six keys, four transactions, TSO-scaled timestamps minutes apart) makes the slot-list recycling run; the recycling deliberately forgets released keys, which is recorded as known finding F28",
         "level": "exploration",
         "modes": [
-            {"mode": "direct-enum", "quick": {"runs": 20800}, "thorough": {"runs": 81000}},
+            {"mode": "direct-enum", "quick": {"runs": 90000}, "thorough": {"runs": 400000}},
             {"mode": "direct", "quick": {"runs": 1600}, "thorough": {"runs": 16000}},
             {"mode": "sched", "quick": {"runs": 16000}, "thorough": {"runs": 160000}},
             {"mode": "direct-wide", "quick": {"runs": 3200}, "thorough": {"runs": 160000}},
             # the scheduler as the transactional client uses it (engine txnsim: stores with local latches enabled)
             {"mode": "latch", "engine": "txnsim", "quick": {"runs": 6000}, "thorough": {"runs": 150000}},
         ],
-        "rule": ("direct-enum: run index = scenario of the complete enumeration (the enumeration ends by itself: 20688 scenarios quick, 80560 thorough tier), all step interleavings explored inside a run; "
+        "rule": ("direct-enum: run index = scenario of the complete enumeration (every shape x every timestamp order x {no commit fails, the commit of transaction f fails and it unlocks without a commit ts}; the enumeration ends by itself: 82200 scenarios in the quick tier, more with the thorough tier's larger key pool), all step interleavings explored inside a run; "
                  "direct: seeded scenarios, exploration cut at 3000 distinct states; sched: seeded schedules of parked goroutines; non-trivial = at least two transactions contend; distinct = canonical step histories; mode latch: 3-7 mostly optimistic transactions of 1-2 stores that run with 1 / 2 / 8 / 256 latch slots over 2-4 keys (multi-key commits, stale refusals), region errors and topology changes in a quarter of the runs; judged: no transaction stays inside Commit once nothing is in flight and nothing was sent for five simulated minutes"),
         "real_vs_stub": "modes direct*, sched (engine latchsim): real code internal/latch (latch.go, scheduler.go) with the verif yield hooks; nothing stubbed. Mode latch (engine txnsim): the scheduler as KVTxn.Commit uses it - real tikv.KVStore with EnableTxnLocalLatches, txnkv/transaction, internal/latch, the repository's mock TiKV; stub: transport, PD/TSO, clock (as for C01)",
         "assumptions": ["memory-model effects below the granularity of the yield points are out of scope"],
